@@ -68,6 +68,24 @@ Theorem C10_pull_ok : forall g ia sk st branch specs gf mode m, IsAncSound g ia 
 Proof. intros g ia sk st branch specs gf mode m H1 H2. exact (pull_step_ok g ia sk H1 H2 st branch specs gf mode m). Qed.
 Print Assumptions C10_pull_ok.
 
+(** a successful first pull of a branch creates it - also when the branch NAME resolves to something else that is
+    already there (e.g. the remote-tracking ref left by an earlier fetch or by a pull interrupted before its last
+    write): the branch is absent before and after the fetch half, exactly one refspec destination holds a commit;
+    then heads/BRANCH holds that commit, logged as created by the pull *)
+Theorem C10_pull_creates_branch : forall g ia sk st branch specs gf mode m hn hc c,
+  let rf := fetch_step g ia st specs gf in
+  r_outcome rf = 0 ->
+  rget (lrefs st) (s_heads ++ branch) = None ->
+  rget (lrefs (r_state rf)) (s_heads ++ branch) = None ->
+  new_branch_heads (lrefs (r_state rf)) specs = [(hn, hc)] ->
+  resolve_commitish (lrefs (r_state rf)) hn = Some c ->
+  let r := pull_step g ia sk st branch specs gf mode m in
+  r_outcome r = 0 /\
+  rget (lrefs (r_state r)) (s_heads ++ branch) = Some c /\
+  rlogs (lrefs (r_state r)) (s_heads ++ branch) = [mk_log None c ACT_PULL].
+Proof. exact pull_creates_branch. Qed.
+Print Assumptions C10_pull_creates_branch.
+
 (** a rejected (or up-to-date) update leaves the whole ref store as it was *)
 Theorem C10_rejected_unchanged : forall ia gforce s tr nrej it,
   updates (fetch_decision (kind_of (fi_dst it)) (is_some (rget s (fi_dst it)))
